@@ -12,7 +12,7 @@ from vlib.nlp import NLP, close, time_like_vars, random_points, DMa
 
 ID = "C07"
 LEVEL = "exploration"
-BUDGET = {"quick": (8, 60), "thorough": (16, 800)}
+BUDGET = {"quick": (8, 60), "thorough": (16, 2000)}
 K = 2
 SHAPES = [(1, 1), (1, 1), (2, 1), (3, 1), (1, 2), (1, 3), (2, 2), (2, 3)]
 RULE = ("Generated OCP (all sampling methods/grids/horizons) and a generated expression of shape 1x1, n x 1, 1 x n or n x m over states, quadrature states, controls, "
@@ -66,6 +66,13 @@ def strategy_(draw):
             e = [draw(st.sampled_from(["+", "*", "-"])), e, p]
         nv.append(e)
     guesses = {d["name"]: draw(gen.small()) for d in sp["states"] + sp["controls"] + sp["vars"] if not d.get("quad")}
+    if draw(st.integers(0, 3)) == 0:
+        # a second stage with its own model, grid and horizon: sol(stage) must read that stage back
+        sp["substages"] = [{"name": "s1", "t0": ["num", draw(st.sampled_from([0.0, 2.0]))], "T": draw(st.sampled_from([["num", 1.0], ["free", 0.75]])),
+                            "states": [{"name": "s1x0", "rows": 2, "cols": 1}], "controls": [{"name": "s1u0", "rows": 1, "cols": 1}], "params": [], "vars": [], "algebraics": [],
+                            "der": [["s1x0", [["-", E.S("s1u0"), E.S("s1x0", 0)], ["*", E.S("s1x0", 0), ["sin", ["t"]]]]]],
+                            "method": {"cls": draw(st.sampled_from(["MS", "DC"])), "N": draw(st.integers(1, 3)), "M": draw(st.integers(1, 2)), "intg": "rk", "degree": 2, "scheme": "radau", "grid": {"cls": draw(st.sampled_from(["uniform", "geometric"])), "growth": 2.0}},
+                            "objective": [["int", ["+", ["sq", E.S("s1u0")], ["sq", E.S("s1x0", 1)]]]], "constraints": []}]
     return {"spec": sp, "expr": exprs, "shape": [r, c], "grid": gname, "kw": kw, "value_exprs": nv, "guesses": guesses, "rng": draw(st.integers(0, 2**31 - 1))}
 
 
@@ -270,6 +277,21 @@ def check(case, ctx):
         if not close(got, want, rtol=1e-9, atol=1e-10):
             fails.append(Fail("numeric-value", feats, {"sol.value": got, "symbolic_at_x": want}))
     ctx.count("solves")
+    if sp.get("substages"):
+        # sol(stage) is the same map, applied to that stage
+        s1 = B.stages["s1"]
+        es1 = ca.vertcat(B.syms["s1x0"][1] * B.syms["s1u0"], B.syms["s1x0"][0] + s1.t)
+        for g1 in ("control", "integrator"):
+            t_sym, v_sym = s1.sample(es1, grid=g1)
+            F1 = ca.Function("F1", [nlp.x, nlp.p], [t_sym, v_sym], {"allow_free": True})
+            if F1.has_free():
+                raise HarnessInconclusive("sub-stage sample has inactive symbols")
+            tw, vw = [DMa(o) for o in F1(xs, nlp.p0)]
+            tn1, vn1 = sol(s1).sample(es1, grid=g1)
+            npt = tw.size
+            if np.asarray(vn1).shape != (npt, 2) or not close(np.asarray(vn1), vw.T, 1e-9, 1e-10) or not close(np.asarray(tn1).reshape(-1), tw.reshape(-1), 1e-12, 1e-12):
+                fails.append(Fail("substage-readback", dict(feats, sub_grid=g1, sub_method=sp["substages"][0]["method"]["cls"]), {"sol(stage).sample": np.asarray(vn1), "symbolic_at_x": vw.T}))
+        ctx.count("substage_readbacks")
     return fails
 
 
